@@ -3,7 +3,8 @@ normalised comparisons, event reachability."""
 from .model import strip, strip_all, walk, kids, show, is_call, call_receiver, notpl
 
 MUTATORS = {"reset", "emplace", "swap", "clear", "resize", "push_back", "emplace_back", "assign",
-            "erase", "insert", "pop_back", "reserve", "append", "shrink_to_fit"}
+            "erase", "insert", "pop_back", "reserve", "append", "shrink_to_fit", "pop_front", "push_front",
+            "emplace_front"}
 ASSIGN_OPS = {"=", "+=", "-=", "*=", "/=", "%=", "<<=", ">>=", "&=", "|=", "^="}
 NEG = {"<": ">=", "<=": ">", ">": "<=", ">=": "<", "==": "!=", "!=": "=="}
 SWAP = {"<": ">", "<=": ">=", ">": "<", ">=": "<=", "==": "==", "!=": "!="}
